@@ -25,8 +25,9 @@ def kindAccepts (fs : List Filter) (s : Bytes) : Prop :=
 def Selected (cfg : Cfg) (t : Test) : Prop :=
   kindAccepts cfg.groupFilters t.group ∧ kindAccepts cfg.nameFilters t.name
 
-/-- a selected test's body is executed: it is a normal test, or run-ignored is on -/
-def willRun (cfg : Cfg) (t : Test) : Bool := !t.ignored || cfg.runIgnored
+/-- a selected test's body is executed: it is a normal test, or run-ignored is on in the
+    registry, or the shell itself was told to run (`shell->setRunIgnored()`) -/
+def willRun (cfg : Cfg) (t : Test) : Bool := !t.ignored || cfg.runIgnored || t.flag
 
 /-! ## projections of the callback stream -/
 
@@ -85,10 +86,59 @@ inductive Linked (nx : Next) : Option Nat → List Nat → Prop
   | nil : Linked nx none []
   | cons {i : Nat} {l : List Nat} : Linked nx (nx i) l → Linked nx (some i) (i :: l)
 
-/-- a registry whose list holds every shell exactly once -/
+/-- a registry whose list is a proper NULL-terminated list of distinct existing shells
+    (shells removed by `unDoLastAddTest` still exist but are not in the list) -/
 structure Reg.WF (r : Reg) : Prop where
   linked : Linked r.next r.head r.order
-  perm   : r.order.Perm (List.range r.objs.size)
+  nodup  : r.order.Nodup
+  bound  : ∀ i ∈ r.order, i < r.objs.size
   ids    : ∀ (i : Nat) (t : Test), r.objs[i]? = some t → t.id = i
+
+/-- every shell that was ever created is in the list (no `unDoLastAddTest` happened) -/
+def Reg.Complete (r : Reg) : Prop := r.order.Perm (List.range r.objs.size)
+
+/-- the part of a shell that decides what a run does with it -/
+def Test.key (cfg : Cfg) (t : Test) : Nat × Bool × Bool := (t.id, shouldRun cfg t, Registry.willRun cfg t)
+
+/-- ids of the shells a run executes: selected and willing to run -/
+def Reg.selectedRunIds (r : Reg) : List Nat :=
+  (r.tests.filter (fun t => shouldRun r.cfg t && willRun r.cfg t)).map (·.id)
+
+/-! ## list modes -/
+
+/-- the accumulation both list loops perform on delimited entries `#...#`: an entry is appended
+    (followed by a space) unless it already occurs in what was accumulated -/
+def accLoop : List Bytes → Bytes → Bytes
+  | [], acc => acc
+  | e :: es, acc => if Text.isInfix acc e then accLoop es acc else accLoop es (acc ++ e ++ [space])
+
+def groupEntry (t : Test) : Bytes := [hash] ++ t.group ++ [hash]
+
+/-- entries followed by their separating space -/
+def encEntries (ds : List Bytes) : Bytes := ds.flatMap (fun e => e ++ [space])
+
+abbrev Key := Nat × Bool × Bool
+
+/-- from the keys of the shells of a list: which bodies a run executes, which tests it starts,
+    and what it counts -/
+def execOfKeys (K : List Key) : List Nat := (K.filter (fun k => k.2.1 && k.2.2)).map (·.1)
+def startOfKeys (K : List Key) : List Nat := (K.filter (fun k => k.2.1)).map (·.1)
+def countersOfKeys (K : List Key) : Counters :=
+  { testCount := K.length,
+    runCount := (K.filter (fun k => k.2.1 && k.2.2)).length,
+    ignoredCount := (K.filter (fun k => k.2.1 && !k.2.2)).length,
+    filteredOutCount := (K.filter (fun k => !k.2.1)).length }
+
+def Reg.keys (r : Reg) : List Key := r.tests.map (Test.key r.cfg)
+
+/-- one repetition did exactly what the keys say: every selected test started once, every
+    selected and willing body executed once (as multisets: the order may be shuffled), the
+    counters are the documented ones, the notifications are balanced -/
+def RunOf (K : List Key) (ce : Counters × List Ev) : Prop :=
+  ce.1 = countersOfKeys K ∧ (executed ce.2).Perm (execOfKeys K) ∧
+  (started ce.2).Perm (startOfKeys K) ∧ Balanced ce.2
+
+def runsOf (out : List ROut) : List (Counters × List Ev) :=
+  out.filterMap (fun o => match o with | .run c e => some (c, e) | _ => none)
 
 end Registry
